@@ -24,7 +24,9 @@ import (
 // wa is the adapter omniwitness.Main puts between the witness and the endpoint (copied shape: NotFound -> os.ErrNotExist is irrelevant here).
 type wa struct{ w *witness.Witness }
 
-func (a wa) GetLatestCheckpoint(ctx context.Context, id string) ([]byte, error) { return a.w.GetCheckpoint(id) }
+func (a wa) GetLatestCheckpoint(ctx context.Context, id string) ([]byte, error) {
+	return a.w.GetCheckpoint(id)
+}
 func (a wa) Update(ctx context.Context, id string, old uint64, cp []byte, p [][]byte) ([]byte, error) {
 	return a.w.Update(ctx, id, old, cp, p)
 }
